@@ -500,3 +500,159 @@ impl Family for QueryAgree {
         rep
     }
 }
+
+// ------------------------------------------------------------------ hover vs the typed tree
+
+/// every identifier use the typed tree knows (a variable / function reference with its source range)
+fn collect_vars(e: &compiler::tast::Expr, out: &mut Vec<(usize, usize, String)>) {
+    use compiler::tast::Expr as X;
+    match e {
+        X::EVar { ty, astptr, .. } => {
+            if let Some(p) = astptr {
+                let r = p.text_range();
+                out.push((u32::from(r.start()) as usize, u32::from(r.end()) as usize, ty.to_pretty(80)));
+            }
+        }
+        X::EPrim { .. } | X::ETraitMethod { .. } | X::EDynTraitMethod { .. } | X::EInherentMethod { .. } => {}
+        X::EConstr { args, .. } => args.iter().for_each(|a| collect_vars(a, out)),
+        X::ETuple { items, .. } | X::EArray { items, .. } => items.iter().for_each(|a| collect_vars(a, out)),
+        X::EClosure { body, .. } => collect_vars(body, out),
+        X::ELet { value, .. } => collect_vars(value, out),
+        X::EBlock { exprs, .. } => exprs.iter().for_each(|a| collect_vars(a, out)),
+        X::EMatch { expr, arms, .. } => {
+            collect_vars(expr, out);
+            arms.iter().for_each(|a| collect_vars(&a.body, out));
+        }
+        X::EIf { cond, then_branch, else_branch, .. } => {
+            collect_vars(cond, out);
+            collect_vars(then_branch, out);
+            collect_vars(else_branch, out);
+        }
+        X::EWhile { cond, body, .. } => {
+            collect_vars(cond, out);
+            collect_vars(body, out);
+        }
+        X::EGo { expr, .. } | X::EUnary { expr, .. } | X::EToDyn { expr, .. } | X::EField { expr, .. } => collect_vars(expr, out),
+        X::EProj { tuple, .. } => collect_vars(tuple, out),
+        X::ECall { func, args, .. } => {
+            collect_vars(func, out);
+            args.iter().for_each(|a| collect_vars(a, out));
+        }
+        X::EBinary { lhs, rhs, .. } => {
+            collect_vars(lhs, out);
+            collect_vars(rhs, out);
+        }
+    }
+}
+
+/// extra programs for the hover oracle: names that mean different things in different name spaces
+pub const HOVER_EXTRA: [&str; 2] = [
+    // locals and fields spelled like functions; a generic function referenced at two instances
+    "struct Buf { size: int64, len: int32 }\n\nfn len(s: string) -> int32 { 3 }\nfn size(b: Buf) -> int64 { b.size }\nfn id[T](x: T) -> T { x }\nfn twice(f: (int32) -> int32, x: int32) -> int32 { f(f(x)) }\nfn inc(x: int32) -> int32 { x + 1 }\n\nfn main() {\n    let len = 5;\n    let b = len + 1;\n    let buf = Buf { size: 2i64, len: 1 };\n    let size = buf.len;\n    let s = size + buf.len;\n    let k = id(1);\n    let t = id(\"s\");\n    let inc2 = twice(inc, 1);\n    let id2 = |id: int32| id + len;\n    string_println(t + int32_to_string(b + s + k + inc2 + id2(1) + len(\"x\")) + int64_to_string(size(buf)))\n}\n",
+    // the same name bound at several depths with different types
+    "enum Opt { Non, Som(int32) }\n\nfn pick(x: string) -> int32 {\n    let x = string_len(x);\n    let r = match Opt::Som(x) {\n        Opt::Som(x) => {\n            let x = x > 0;\n            if x { 1 } else { 0 }\n        },\n        Opt::Non => x,\n    };\n    let f = |x: bool| if x { r } else { 0 };\n    f(x > 1) + x\n}\n\nfn main() {\n    string_println(int32_to_string(pick(\"ab\")))\n}\n",
+];
+
+pub struct HoverAll;
+
+impl Family for HoverAll {
+    fn name(&self) -> &'static str {
+        "hover-all"
+    }
+    fn serves(&self) -> &'static [&'static str] {
+        &["C20"]
+    }
+    fn rule(&self) -> &'static str {
+        "programs = the 11 query seed programs + 2 programs in which one spelling names a local, a field, a function and a closure parameter + the 74 corpus programs; for every identifier use that the compiler's typed tree records with a source range (variables, parameters, function references, generic functions at each instance) and every byte offset inside it: hover must report exactly the type the typed tree assigns to that use. non-trivial = uses whose spelling is also the name of a top-level function, a field or another binder of a different type; distinct = distinct (program, offset)"
+    }
+    fn cases(&self, _tier: Tier) -> Box<dyn Iterator<Item = Value> + '_> {
+        let n = SEEDS.len() + HOVER_EXTRA.len() + crate::families::text::corpus_sources().len() - 1;
+        Box::new((0..n).map(|i| json!({"program": i})))
+    }
+    fn case_timeout(&self, _tier: Tier) -> u64 {
+        300
+    }
+    fn run(&self, case: &Value, ctx: &mut Ctx) -> Report {
+        let mut rep = Report::default();
+        let i = case["program"].as_u64().unwrap() as usize;
+        let (name, text): (String, String) = if i < SEEDS.len() {
+            (format!("seed{}", i), seed_text(i).0)
+        } else if i < SEEDS.len() + HOVER_EXTRA.len() {
+            (format!("extra{}", i - SEEDS.len()), HOVER_EXTRA[i - SEEDS.len()].to_string())
+        } else {
+            let srcs: Vec<(String, String)> = crate::families::text::corpus_sources().into_iter().filter(|(n, _)| n != "builtin.gom").collect();
+            let (n, s) = srcs[i - SEEDS.len() - HOVER_EXTRA.len()].clone();
+            (format!("corpus/{}", n), s)
+        };
+        // programs with package sub-directories need their directory: skip (hover works on one file)
+        if text.contains("\nimport ") || text.starts_with("import ") {
+            rep.tag("inapplicable:imports");
+            return rep;
+        }
+        let path = ctx.scratch.single_path();
+        let comp = match crate::oracle::compile_at(&path, &text) {
+            crate::oracle::CompileOutcome::Ok(c) => c,
+            _ => {
+                rep.tag("machinery:program-does-not-compile");
+                rep.sample = Some(json!({"program": name}));
+                return rep;
+            }
+        };
+        let mut uses = Vec::new();
+        for item in &comp.tast.toplevels {
+            match item {
+                compiler::tast::Item::Fn(f) => collect_vars(&f.body, &mut uses),
+                compiler::tast::Item::ImplBlock(b) => b.methods.iter().for_each(|f| collect_vars(&f.body, &mut uses)),
+                _ => {}
+            }
+        }
+        drop(comp);
+        let toks = lexer::lex(&text);
+        let idents: std::collections::BTreeMap<&str, usize> = toks.iter().fold(std::collections::BTreeMap::new(), |mut m, t| {
+            *m.entry(t.text).or_insert(0) += 1;
+            m
+        });
+        let mut checked = 0u64;
+        let mut reported = std::collections::BTreeSet::new();
+        for (s, e, want) in &uses {
+            if *e > text.len() || *s >= *e {
+                continue;
+            }
+            let spelled = &text[*s..*e];
+            // only plain identifiers: on a path `A::b` the segments mean different things
+            if !spelled.chars().all(|c| c.is_alphanumeric() || c == '_') {
+                continue;
+            }
+            // uses inside derived / generated code point at the attribute, not at an identifier
+            if !toks.iter().any(|t| u32::from(t.range.start()) as usize == *s && t.text == spelled) {
+                continue;
+            }
+            if idents.get(spelled).copied().unwrap_or(0) > 1 {
+                rep.more_keys.push(fnv(&format!("{}|{}", name, s)));
+            }
+            for off in *s..*e {
+                let (line, col) = line_col(&text, off);
+                checked += 1;
+                let got = match guarded(|| hover_type(&path, &text, line, col)) {
+                    Ok(Ok(t)) => squash(&t),
+                    Ok(Err(m)) => format!("<err:{}>", m),
+                    Err(p) => format!("<panic:{}>", p),
+                };
+                if got != squash(want) && reported.insert((spelled.to_string(), squash(want), got.clone())) {
+                    rep.findings.push(Finding {
+                        property: "C20",
+                        class: if got.starts_with("<panic") { "query.panic.hover".into() } else { "hover.differs-from-typed-tree".into() },
+                        site: format!("program={};ident={};want={};got={}", name, spelled, squash(want), got),
+                        detail: format!("{} hover at {}:{} on `{}`: the typed tree says {} but hover says {}", name, line, col, spelled, squash(want), got),
+                        replay: json!({"kind": "query", "request": "hover", "text": text, "line": line, "col": col, "expected": squash(want)}),
+                    });
+                }
+            }
+        }
+        rep.sub_evaluations = checked;
+        rep.tag(format!("uses:{}", uses.len()));
+        rep.outcome = Some(format!("{}:{}", name, uses.len()));
+        rep.sample = Some(json!({"program": name, "identifier_uses_in_typed_tree": uses.len(), "hover_requests": checked}));
+        rep
+    }
+}
